@@ -50,6 +50,13 @@ fn main() {
             std::fs::write(&args.extra[3], src).expect("write batch source");
             return;
         }
+        "decode-fuzz" => {
+            let data = std::fs::read(&args.extra[0]).expect("read fuzz input");
+            if let Some((cfg, ops)) = vcore::props::c03::decode_fuzz_input(&data) {
+                println!("{}", vcore::session::encode_session(&cfg, &ops));
+            }
+            return;
+        }
         "canary" => {
             vcore::props::c03::canary(args.extra.first().map(|s| s.as_str()).unwrap_or(""));
             return;
